@@ -275,7 +275,8 @@ def gen_struct(item):
     L.append(f"    let r = <{name} as EtherCrabWireRead>::unpack_from_slice(&b[..]);")
     L.append(f"    let r_exact = <{name} as EtherCrabWireRead>::unpack_from_slice(&b[..{nbytes}]);")
     L.append("    assert!(r.is_ok() == r_exact.is_ok());")
-    L.append("    if let Ok(v) = r {")
+    head_len = len(L)          # the completeness clause and the `if let` line are inserted here once the nested fields are known
+    nested_ok = []
     declmask = [0] * nbytes
     canonical = True
     checks_w = []
@@ -306,6 +307,7 @@ def gen_struct(item):
                 canonical = False
             else:
                 L.append(f"        assert!(<{ty} as EtherCrabWireRead>::unpack_from_slice(&[{raw}]).is_ok());")
+                nested_ok.append(f"<{ty} as EtherCrabWireRead>::unpack_from_slice(&[{raw}]).is_ok()")
                 canonical = False
                 checks_w.append(("NESTED1", fn, ty, bs, off, mask))
         else:
@@ -319,8 +321,16 @@ def gen_struct(item):
                 checks_w.append(f"        assert!(p[{bs}..{be}] == {acc}[..]);")
             else:
                 L.append(f"        assert!(<{ty} as EtherCrabWireRead>::unpack_from_slice(&b[{bs}..{be}]).is_ok());")
+                nested_ok.append(f"<{ty} as EtherCrabWireRead>::unpack_from_slice(&b[{bs}..{be}]).is_ok()")
                 canonical = False
                 checks_w.append(("NESTEDN", fn, ty, bs, be))
+    # completeness (two-sided): a buffer of PACKED_LEN bytes or more is refused only because a nested field's own bytes do not
+    # decode (an enum value without a variant); with primitive fields only it ALWAYS decodes
+    cond = " && ".join(nested_ok) if nested_ok else "true"
+    L[head_len:head_len] = [
+        f"    assert!(r.is_ok() == ({cond}), \"a buffer of PACKED_LEN bytes or more decodes unless a nested field's own bytes do not\");",
+        "    if let Ok(v) = r {",
+    ]
     if item["write"]:
         if canonical:
             L.append(f"        let p0 = <{name} as EtherCrabWireWriteSized>::pack(&v);")
